@@ -524,6 +524,7 @@ func (r *run) kidMatrix() {
 		{"one-key", []cardKey{mk(0, "only", 0, T+1000)}, []int{0}},
 		{"two-keys", []cardKey{mk(1, "first", T-500, T+500), mk(2, "last", T-100, T+2000)}, []int{1, 2}},
 		{"empty-id-first", []cardKey{mk(2, "", T-500, T+500), mk(0, "named", 0, T+2000)}, []int{2, 0}},
+		{"wrapping-windows", []cardKey{mk(1, "top", 1, int64(^uint64(0)>>1)), mk(2, "neg", -5, int64(^uint64(0)>>1)-62135596800)}, []int{1, 2}},
 	}
 	claims := mustJSON(map[string]interface{}{"iss": ".", "sub": user, "aud": host, "iat": T - 3600, "exp": T + 86400})
 	cs := b64(claims)
@@ -651,6 +652,21 @@ func (r *run) claims() {
 	}
 	// time: boundaries at 1 s and 1 ns
 	const ns = int64(time.Second)
+	const maxI = int64(^uint64(0) >> 1)
+	const u2i = int64(62135596800)
+	// claim times at the int64 wrap of time.Unix and at the saturation of Add
+	for _, p := range [][2]int64{{0, maxI}, {maxI, 1800000000}, {0, maxI - u2i}, {0, maxI - u2i + 1}, {-maxI - 1, 1800000000},
+		{-maxI - 1, -maxI - 1}, {-maxI - 1 + 299, 1800000000}, {-maxI - 1 + 300, 1800000000}, {-u2i - 1, 5},
+		{maxI - u2i, maxI - u2i}, {maxI - u2i + 1, maxI}, {-u2i, -u2i + 1}, {-u2i - 1, 1 << 62}, {1 << 62, 1<<62 + 1}} {
+		for _, now := range []int64{0, -1, 1700000000 * ns, maxI, -maxI - 1, 1} {
+			cl := &jwt.ClaimSet{Iat: p[0], Exp: p[1]}
+			c := &Case{Stream: "jwttime", Op: "jwttime", C: claimsOf(cl), Now: z(now), Note: "wrap"}
+			_, err := jwt.CheckTime(cl, time.Unix(0, now))
+			c.Obs.Err = jwtErr(err)
+			c.Obs.Ok = err == nil
+			r.emit(c)
+		}
+	}
 	for _, p := range [][2]int64{{1700000000, 1700000600}, {0, 0}, {100, 50}, {-1000, -400}, {1 << 40, 1<<40 + 1}, {500, 200}} {
 		iat, exp := p[0], p[1]
 		for _, now := range []int64{(iat - 301) * ns, (iat-300)*ns - 1, (iat - 300) * ns, (iat-300)*ns + 1, (iat - 299) * ns, iat * ns,
